@@ -7,6 +7,7 @@ CONSTANTS
   Chunked = TRUE
   NoRangeLen = 3
   CodeDen <- Den1
+  Dims = 1
 VIEW View
 ACTION_CONSTRAINT Emit
 CHECK_DEADLOCK FALSE
